@@ -26,6 +26,12 @@ type Standin struct {
 }
 
 var propStandins = map[string][]Standin{
+	"C17": {{
+		Name: "set-model", Pkg: "internal/tools/bitmask", TestFile: "bitmask_standin_test.go", TestName: "TestC17Standin", OutEnv: "C17_OUT",
+		EnvQuick: []string{"C17_LEN=2", "C17_RANDOM=20000"}, EnvThorough: []string{"C17_LEN=3", "C17_RANDOM=200000"},
+		Bound:   "ShortBitmask (linked words, outside the verifier's memory model), the membership meaning of ConnectedBitmask's Or/And/Xor/Sub/Inject/Extract (their canonical form is proved, their membership only partly) and the agreement of the three representations: every sequence of up to 2 (quick) / 3 (thorough) operations out of 102 (set/unset/flip/inject true|false/extract at bits {0,1,2,62,63,64,65,127,128,129}; or/and/xor/sub with 10 operand sets; copy; shrink) plus 20000 / 200000 seeded random sequences of up to 6 more operations, after every step compared with a plain set model (IsSet for bits < 200, OnesCount, Len, IsZero, Equal against the same set built by Set)",
+		Timeout: 20 * time.Minute,
+	}},
 	"C15": {{
 		Name: "cache-ops", Pkg: "internal/index/converters", TestFile: "cachefile_standin_test.go", TestName: "TestC15Standin", OutEnv: "C15_OUT",
 		EnvQuick: []string{"C15_LEN=3", "C15_RANDOM=3000"}, EnvThorough: []string{"C15_LEN=4", "C15_RANDOM=30000"},
